@@ -302,11 +302,31 @@ EXTRA4 = {
 }
 
 
+# round 9
+EXTRA5 = {
+    'C01': ' Round 9: the entry actions of setState are followed into an extracted helper and through a switch; the pending escape '
+           'is cleared on every path through setState (C01.R6).',
+    'C05': ' Round 9: a 32 bit raw value becomes a signed int only where it is negative or the type is narrower (C05.R12).',
+    'C06': ' Round 9: key lookup of a parsed number only behind the scan over the names, loop or std::find_if (C06.R4); range tests '
+           'of every NumberDataType method, both signednesses where the test is shared (C06.R9).',
+    'C07': ' Round 9: checkValueRange evaluated from its AST for all raw values of an 8 bit type and 14 ranges (C07.R12).',
+    'C09': ' Round 9: all part arrival times are read before a join (C09.R15); via the call graph: chain ID prefix (C09.H22).',
+    'C13': ' Round 9: the verdict returned by a re-evaluation is the cached one (C13.R13); a composite that asks a single child is '
+           'reported (C13.R1).',
+    'C17': ' Round 9: priority set before the message is queued, also inside a helper (C17.R7).',
+    'C18': ' Round 9: length-1 positions and search results used as positions (C18.R15/R16); the percent-decode rules follow a '
+           'helper (C18.R2/R13).',
+    'C19': ' Round 9: chain part lengths are written in decimal (C19.R12).',
+    'C20': ' Round 9: length-1 positions need a non-empty string, search results used as positions need npos excluded '
+           '(C20.R20/R21).',
+}
+
+
 def main():
     checks = []
     for pid in sorted(CHECKS):
         c = dict(CHECKS[pid])
-        c['text'] = c['text'] + EXTRA.get(pid, '') + EXTRA2.get(pid, '') + EXTRA3.get(pid, '') + EXTRA4.get(pid, '')
+        c['text'] = c['text'] + EXTRA.get(pid, '') + EXTRA2.get(pid, '') + EXTRA3.get(pid, '') + EXTRA4.get(pid, '') + EXTRA5.get(pid, '')
         if pid in ('C01', 'C02', 'C03', 'C05', 'C06', 'C07', 'C08', 'C09', 'C10', 'C11', 'C13', 'C14', 'C15', 'C19', 'C20'):
             c['technique'] += '; finite evaluation of inline accessors / conditions from the typed AST on enumerated model states'
         checks.append({
